@@ -254,4 +254,6 @@ func init() {
 	mutant("C08", "v2-local-offset-unchecked", "C08.R8", "proxyproto/v2.go", "\t\th.IsLocal = true\n", "\t\th.IsLocal = true\n\t\tif buf[13]&0xF0 == 0x10 {\n\t\t\toffset = ipv4AddressLen\n\t\t}\n")
 	mutant("C12", "v2-block-in-caller-buffer", "C12.R11", "proxyproto/v2.go", "\t\ttr = make([]byte, length)\n", "\t\ttr = make([]byte, length)\n\t\tif int(length) <= len(buf) {\n\t\t\ttr = buf[16 : 16+length]\n\t\t}\n")
 	mutant("C16", "rules-skipped-on-empty-header", "C16.R7", "header/header.go", "func (s Headers) ModifyResponse(res *http.Response) error {\n", "func (s Headers) ModifyResponse(res *http.Response) error {\n\tif len(res.Header) == 0 {\n\t\treturn nil\n\t}\n")
+	mutant("C15", "address-asked-after-handshake", "C15.R6", proxygo, "\t// RemoteAddr may block, e.g. waiting for the PROXY protocol header, it must not be called in the accept loop.\n\tlog.Debug(context.TODO(), \"accepted connection\", \"address\", conn.RemoteAddr().String())\n\n\tpc := newProxyConn(p, conn)\n\n\tif err := pc.maybeHandshakeTLS(); err != nil {\n\t\tlog.Error(context.TODO(), \"failed to do TLS handshake\", \"error\", err)\n\t\treturn\n\t}\n", "\tpc := newProxyConn(p, conn)\n\n\tif err := pc.maybeHandshakeTLS(); err != nil {\n\t\tlog.Error(context.TODO(), \"failed to do TLS handshake\", \"error\", err)\n\t\treturn\n\t}\n\tlog.Debug(context.TODO(), \"accepted connection\", \"address\", conn.RemoteAddr().String())\n")
+	mutant("C19", "ca-key-option-in-error", "C19.R6", "mitm.go", "\treturn loadX509KeyPair(c.CACertFile, c.CAKeyFile)", "\tcert, err = loadX509KeyPair(c.CACertFile, c.CAKeyFile)\n\tif err != nil {\n\t\terr = errors.New(\"CA key \" + c.CAKeyFile + \": \" + err.Error())\n\t}\n\treturn cert, err")
 }
